@@ -315,11 +315,23 @@ def isNumber : FVal → Bool
 def applyFmt (gFirst : Bytes → Nat) (v : FVal) (o : Option Opts) (exactCenter : Bool := false) : Bytes :=
   pad gFirst (isNumber v) (render gFirst v o) o exactCenter
 
+/-- `run_string_push` with requests/C15-fix-12.diff applied: the `0` flag (fill `"0"` with `Default`
+alignment — only the flag produces that) is sign-aware for numbers: the sign comes first, the zeroes after
+it (`'{-5:03}'` is `-05`; the current code gives `0-5`, F-C15-14) -/
+def applyFmtSign (gFirst : Bytes → Nat) (v : FVal) (o : Option Opts) (exactCenter : Bool := false) : Bytes :=
+  let r := render gFirst v o
+  match o with
+  | some oo =>
+    if isNumber v ∧ oo.align = .default ∧ oo.fill = some [48] ∧ r.head? = some 45 then
+      45 :: pad gFirst true (r.drop 1) (some { oo with minWidth := oo.minWidth.map (· - 1) }) exactCenter
+    else pad gFirst (isNumber v) r o exactCenter
+  | none => r
+
 /-- `'{v:fmt}'`: parse the options, then apply them -/
 def format (gFirst : Bytes → Nat) (fmt : Bytes) (v : FVal) (exactCenter : Bool := false)
-    (clusterFirst : Bool := false) : Except PErr Bytes :=
+    (clusterFirst : Bool := false) (signAware : Bool := false) : Except PErr Bytes :=
   match parse gFirst fmt clusterFirst with
   | .error e => .error e
-  | .ok o => .ok (applyFmt gFirst v (some o) exactCenter)
+  | .ok o => .ok (if signAware then applyFmtSign gFirst v (some o) exactCenter else applyFmt gFirst v (some o) exactCenter)
 
 end KotoVerif.FmtSpec
